@@ -62,11 +62,30 @@ type PropertyDef struct {
 	// Floors: rule -> minimum number of obligations that must have been produced
 	Floors map[string]int
 	Run    func(c *Ctx)
+	// Borrows: rules of other properties that are necessary conditions of this one as well;
+	// their obligations are recomputed here and reported under <ID>.<From>.<Rule>.
+	Borrows []Borrow
+}
+
+// Borrow names rules of another property (From) that this property also depends on.
+type Borrow struct {
+	From  string
+	Rules []string // e.g. "D1"
+	Why   string
 }
 
 var registry = map[string]*PropertyDef{}
 
-func register(p *PropertyDef) { registry[p.ID] = p }
+func register(p *PropertyDef) {
+	if len(p.Borrows) > 0 {
+		var parts []string
+		for _, b := range p.Borrows {
+			parts = append(parts, fmt.Sprintf("%s.{%s}: %s", b.From, strings.Join(b.Rules, ","), b.Why))
+		}
+		p.Explanation += " Also decided here on every run, because they are necessary conditions of this property too (rules owned by another property, reported as " + p.ID + ".<owner>.<rule>; see that property's evidence for their definition): " + strings.Join(parts, "; ") + "."
+	}
+	registry[p.ID] = p
+}
 
 // Ctx is the per-run analysis context for one property.
 type Ctx struct {
@@ -155,6 +174,43 @@ func runProperty(w *World, p *PropertyDef, known []KnownFinding) (res runResult)
 		}()
 		p.Run(c)
 	}()
+	// borrowed rules: run the owning property's rules on the same program and take over the
+	// obligations of the named rules (with that property's floors)
+	for _, b := range p.Borrows {
+		src := registry[b.From]
+		if src == nil {
+			c.undecided(b.From, "borrow", token.NoPos, "property %s (borrowed rules %v) is not registered", b.From, b.Rules)
+			continue
+		}
+		sc := &Ctx{W: w, Prop: src}
+		func() {
+			defer func() {
+				if r := recover(); r != nil {
+					c.undecided(b.From+".PANIC", "checker", token.NoPos, "analyser panic in borrowed rules: %v", r)
+				}
+			}()
+			src.Run(sc)
+		}()
+		for _, r := range b.Rules {
+			n := 0
+			for _, o := range sc.Obs {
+				if o.Rule == b.From+"."+r {
+					o.Rule = p.ID + "." + b.From + "." + r
+					c.Obs = append(c.Obs, o)
+					n++
+				}
+			}
+			if min := src.Floors[r]; n < min {
+				c.undecided(b.From+"."+r, "floor", token.NoPos, "borrowed rule produced %d obligations, fewer than the %d confirmed by hand on the reference tree: anchors not found", n, min)
+			}
+		}
+		for f := range sc.funcs {
+			if c.funcs == nil {
+				c.funcs = map[string]bool{}
+			}
+			c.funcs[f] = true
+		}
+	}
 	// floors
 	perRule := map[string]int{}
 	for _, o := range c.Obs {
